@@ -1,3 +1,4 @@
 import Properties.C02
 import Properties.C10
 import Properties.C17
+import Properties.C07
